@@ -45,8 +45,9 @@ ASSUMPTIONS = [
     "gzip/tar codec (CPython tarfile, zlib) is trusted; only Bob's member dispatch, path filter and the builder's acceptance logic are modelled",
     "CPython 3.12 per-member extraction semantics (makedirs of parents, open-truncate-write, mkdir ignoring EEXIST, unlink+symlink, link, "
     "mkfifo, mknod, chown/chmod/utime following links, errorlevel=1) are assumed as transliterated in Model/TarExtract.lean and validated "
-    "differentially; the link fallback of TarFile.makelink (re-extraction of another member), symlink loops, writes onto fifos and "
-    "non-regular audit members are outside the model (reported as `unsupported`, still covered by the jail oracle)",
+    "differentially, including the re-extraction fallback of TarFile.makelink for hard link members (`_find_link_target` among the earlier "
+    "members, exhausted stream afterwards); the same fallback for SYMBOLIC link members, symlink loops, writes onto fifos, hard link names "
+    "with a trailing slash are outside the model (reported as `unsupported`, still covered by the jail oracle)",
     "POSIX path resolution as modelled by `walk` (strict = kernel, lenient = os.path.realpath); absolute destination paths; umask 022",
     "hashDirectory is collision free on the compared trees (hypothesis `Function.Injective hashDir` of accepted_is_packed)",
     "HTTP/Jenkins transports are not exercised (LocalArchive only)",
@@ -384,6 +385,73 @@ def scenario(r, jail):
     return ms
 
 
+def scenario_fallback(r, jail):
+    """archives that reach the re-extraction fallback of tarfile.makelink for a HARD link member (os.link not possible:
+    tarfile looks the link name up among the EARLIER members of the archive and extracts that member at the link's path)
+      * target name absent on disk but present as an earlier member (behind a re-pointed symlinked directory, a dangling
+        symlink member, the un-extracted `content` / `meta` / audit members: link names across the content/ boundary),
+      * target replaced by a later member of another type before the link comes,
+      * os.link fails although source and checks are fine (link name below a regular file: ENOTDIR), which is the way into
+        the fallback that the current dispatch leaves open,
+      * chains: the found member is itself a hard link."""
+    J = jail
+    victim = r.choice(["../../victim", "../../out/victim2", J + "/victim"])
+    mode = r.choice([0o777, 0o640, 0o600])
+    tmode = r.choice([0o700, 0o751, 0o644])
+    found = r.choice(["sym", "dir", "fifo", "reg", "lnk", "chr", "lnk2", "none"])
+    k = r.choice([0, 1, 2, 3, 4, 4, 4, 5])
+
+    def target_member(name):
+        """the member the fallback will find under `name` (renamed name space)"""
+        if found == "sym":
+            return [{"name": "content/" + name, "type": "sym", "link": r.choice([victim, "e2", "nowhere"])}]
+        if found == "dir":
+            return [{"name": "content/" + name, "type": "dir", "mode": tmode}]
+        if found in ("fifo", "chr"):
+            return [{"name": "content/" + name, "type": found, "mode": tmode}]
+        if found == "reg":
+            return [{"name": "content/" + name, "type": "reg", "data": "T", "mode": tmode}]
+        if found == "lnk":      # chain: hard link -> earlier directory / symlink member
+            inner = r.choice(["dir", "sym", "reg"])
+            return [{"name": "content/t0", "type": inner, "data": "t0", "link": victim, "mode": tmode},
+                    {"name": "content/" + name, "type": "lnk", "link": "content/t0", "mode": r.choice(MODES_F)}]
+        if found == "lnk2":     # chain whose inner link name is not in the archive
+            return [{"name": "content/t0", "type": "reg", "data": "t0", "mode": 0o644},
+                    {"name": "content/" + name, "type": "lnk", "link": "content/t0", "mode": r.choice(MODES_F)},
+                    {"name": "content/t0", "type": "lnk", "link": "content/nonex", "mode": 0o644}]
+        return []
+    if k == 0:      # behind a symlinked directory that is re-pointed: `d/s` names the earlier member, the disk has e2/s
+        ms = [{"name": "content/e", "type": "dir", "mode": 0o755}, {"name": "content/e2", "type": "dir", "mode": 0o755},
+              {"name": "content/d", "type": "sym", "link": "e"}] + target_member("d/s") + \
+             [{"name": "content/d", "type": "sym", "link": "e2"}]
+        if r.random() < 0.7:
+            ms.append({"name": "content/e2/s", "type": "reg", "data": "S", "mode": 0o644})
+        ms.append({"name": "content/h", "type": "reg", "data": "H", "mode": 0o644})
+        ms.append({"name": r.choice(["content/h/x", "content/h/x", "content/h2", "content/h"]), "type": "lnk", "link": "content/d/s", "mode": mode})
+    elif k == 1:    # the earlier member is not on disk at all: names across the content/ boundary
+        ln = r.choice(["content/content", "content/meta", "content/meta/audit.json.gz", "content/./content", "content/x/../meta"])
+        ms = [{"name": "meta", "type": r.choice(["dir", "sym", "fifo"]), "link": victim, "mode": tmode}] if r.random() < 0.5 else []
+        ms.append({"name": "content/h", "type": "lnk", "link": ln, "mode": mode})
+    elif k == 2:    # target replaced by a later member of another type
+        ms = [{"name": "content/f", "type": "reg", "data": "F", "mode": 0o644}] + target_member("f") + \
+             [{"name": "content/h", "type": "lnk", "link": r.choice(["content/f", "content/./f", "content/f/.", "content/x/../f"]), "mode": mode}]
+    elif k == 3:    # dangling / outside symlink member as link target: absent for os.path.exists, present in the archive
+        ms = [{"name": "content/s", "type": "sym", "link": r.choice(["nowhere", victim, "../../nonex"])},
+              {"name": "content/h", "type": "lnk", "link": "content/s", "mode": mode}]
+    elif k == 4:    # os.link fails below a regular file, every kind of found member
+        ms = [{"name": "content/e", "type": "dir", "mode": 0o755}, {"name": "content/e2", "type": "dir", "mode": 0o755},
+              {"name": "content/d", "type": "sym", "link": "e"}] + target_member("d/s") + \
+             [{"name": "content/d", "type": "sym", "link": "e2"}, {"name": "content/e2/s", "type": "reg", "data": "S", "mode": 0o644},
+              {"name": "content/h", "type": "reg", "data": "H", "mode": 0o644},
+              {"name": "content/h/x", "type": "lnk", "link": "content/d/s", "mode": mode}]
+    else:           # link target only exists as an earlier member of the same name as the link itself / a later one
+        ms = target_member("h") + [{"name": "content/h", "type": "lnk", "link": r.choice(["content/h", "content/g"]), "mode": mode},
+                                   {"name": "content/g", "type": "reg", "data": "G", "mode": 0o644}]
+    if r.random() < 0.5:
+        ms.append({"name": "content/z", "type": "reg", "data": "after", "mode": 0o644})      # never extracted after a fallback
+    return ms
+
+
 def gen_stateful(r, jail):
     """archives whose members depend on what earlier members left behind: a small base tree, then a random sequence over
     * SYM members that (re-)point an already extracted symlink of the same name to inside / outside targets,
@@ -433,7 +501,11 @@ def gen_stateful(r, jail):
 def gen_hostile(r, jail):
     """-> (members, vsn)"""
     k0 = r.random()
-    if k0 < 0.30:
+    if k0 < 0.12:
+        ms = scenario_fallback(r, jail)
+        if r.random() < 0.2:
+            ms.insert(r.randrange(len(ms) + 1), gen_member(r, [m["name"] for m in ms], jail))
+    elif k0 < 0.36:
         ms = gen_stateful(r, jail)
     elif k0 < 0.58:
         ms = scenario(r, jail)
@@ -558,10 +630,29 @@ def classify_exc(e):
     return "internal:" + type(e).__name__
 
 
+FALLBACK_LOG = []      # what tarfile's `_find_link_target` was asked for during the last run_extract (observation only)
+
+
+def _spy_find_link_target(orig):
+    def spy(self, tarinfo):
+        kind = "lnk" if tarinfo.islnk() else "sym"
+        try:
+            m = orig(self, tarinfo)
+        except KeyError:
+            FALLBACK_LOG.append(kind + "->notfound")
+            raise
+        FALLBACK_LOG.append(kind + "->" + TYPE_NAMES.get(m.type, "?"))
+        return m
+    return spy
+
+
 def run_extract(data, dest, audit):
     """the real extraction; returns outcome kind"""
     from bob.archive import TarHelper
     old = os.umask(UMASK)
+    del FALLBACK_LOG[:]
+    orig = tarfile.TarFile._find_link_target
+    tarfile.TarFile._find_link_target = _spy_find_link_target(orig)
     try:
         with time_limit(10):
             TarHelper()._extract(io.BytesIO(data), audit, dest)
@@ -571,6 +662,7 @@ def run_extract(data, dest, audit):
             raise
         return "err:" + classify_exc(e)
     finally:
+        tarfile.TarFile._find_link_target = orig
         os.umask(old)
 
 
@@ -1025,7 +1117,7 @@ def correspond_hostile(ctx, n, batch=500):
                    "audit": [c for c in audit.split("/") if c], "vsn": seen_vsn, "members": seen}
             req.update(fs_request(base, before))
             reqs.append(req)
-            impls.append((out, structural(after)))
+            impls.append((out, structural(after), list(FALLBACK_LOG)))
             cases.append({"kind": "hostile", "members": members, "vsn": vsn, "jail": var})
         done += batch
         compare_hostile(ctx, base, cases, impls, ctx.lean(DRIVER, reqs) if reqs else [])
@@ -1035,13 +1127,23 @@ def correspond_hostile(ctx, n, batch=500):
 
 
 def compare_hostile(ctx, base, cases, impls, replies):
-    for c, (out, (ent, groups)), rep in zip(cases, impls, replies):
+    for c, (out, (ent, groups), fblog), rep in zip(cases, impls, replies):
         ctx.case(("corr", canon_members(c["members"]), c["vsn"], sorted(c["jail"].items())),
                  nontrivial=any(m["name"].startswith("content/") for m in c["members"]))
         mout = rep["out"]
         ctx.count("corr_model_outcome", mout)
+        # the implementation took the re-extraction fallback of tarfile.makelink: for hard link members this is inside the
+        # model (`reextract`/`linkFallback`) and compared like everything else; the histogram says what the lookup found
+        hard = [x for x in fblog if x.startswith("lnk->")]
+        if hard:
+            ctx.count("corr_hardlink_fallback_found", "+".join(x[5:] for x in hard))
+            ctx.count("corr_hardlink_fallback_outcome", "%s / model %s" % (out, mout))
         if mout == "err:unsupported":
+            # what is still outside the model: the same fallback for SYMBOLIC link members, symlink loops, writes onto fifos,
+            # hard link names with a trailing slash (jail oracle only)
             ctx.count("corr_unsupported_impl_outcome", out)
+            ctx.count("corr_unsupported_reason", "symlink-member-fallback" if any(x.startswith("sym->") for x in fblog)
+                      else "hardlink-fallback+other" if hard else "other")
             continue
         if out in OUTSIDE_MODEL:
             ctx.disagree("TarHelper._extract outcome == Model.extractAll outcome", c, out, mout)
@@ -1532,8 +1634,9 @@ MANIFEST = {
             "hash(extracted) = audit.resultHash; with an injective directory hash the accepted tree is the packed tree. (C) fidelity of the "
             "tar/gzip round trip, outcomes of truncation / bit flips / wrong formats through LocalBuilder._downloadPackage, and the model itself "
             "(outcome kind + complete resulting tree of a jail, thousands of hostile archives per run) are decided differentially. (A) tar/gzip "
-            "codec, CPython's per-member extraction semantics as transliterated (makelink fallback, symlink loops, fifo writes, non-regular "
-            "audit members are outside the model).",
+            "codec, CPython's per-member extraction semantics as transliterated (the re-extraction fallback of makelink for hard link members "
+            "is inside the model and the theorem; the same fallback for symbolic link members, symlink loops, fifo writes, hard link names "
+            "with a trailing slash are outside the model).",
     "note": "trusted: Lean kernel, harness/props/c08.py, tools/consts/c08.py, CPython 3.12 tarfile/gzip/os semantics (member extraction modelled and "
             "validated differentially, codec trusted), POSIX path resolution as modelled by `walk`, SHA-1 collision freedom of hashDirectory "
             "(hypothesis of accepted_is_packed); HTTP and Jenkins transports not exercised",
